@@ -5,7 +5,8 @@
    DeleteRegion / Flush / reopen / byte-budget changes / loads, with arbitrary uint64 ids (`ops_ok`: 0 <= id < 2^64) —
    any number of items, any id distribution; page limits and fault patterns are universally quantified in the
    paging theorem (C17_paging_exact: any limit >= 1, any minimum, any LoadRange fault oracle, any callback that only
-   deletes ids it has been shown).  Namespaces are id-sorted association lists (zero-padded keys: lemma
+   deletes ids it has been shown).  The four defects found here (S9 at both loaders, S10) are fixed in /repo
+   (b5d4f59, e76651c); the statements below are the full-strength ones about the repaired code.  Namespaces are id-sorted association lists (zero-padded keys: lemma
    C17_pad_covers_uint64); LoadRange is end-exclusive (obligations src_*_LoadRange_ok). *)
 From Coq Require Import String.
 From PDV Require Import lib.Base lib.C17_Map gen.Gen_C17 model.C17_Storage
@@ -22,9 +23,9 @@ Proof. exact pad_covers_uint64. Qed.
 (* ------------------------------------------------------------------------------------------ *)
 (* 1. the paging loop, for every page limit, fault pattern and callback                        *)
 (* ------------------------------------------------------------------------------------------ *)
-(* Never an endless loop (given the stated fuel); when it finishes, the callback has seen exactly the items with
-   next <= id < 2^64-1, each once, in id order, and storage/callback state are the result of processing them in
-   that order. *)
+(* Never an endless loop (given the stated fuel) — also not at the uint64 boundary, where nextID = id + 1 wraps to 0;
+   when it finishes, the callback has seen exactly the items with next <= id < 2^64, each once, in id order, and
+   storage / callback state are the result of processing them in that order. *)
 Theorem C17_paging_exact :
   forall (V C : Type) (fails : nat -> amap V -> bool) (cb : C -> Z * V -> C * list Z) (min_limit : Z),
     1 <= min_limit ->
@@ -49,89 +50,49 @@ Proof. exact region_limit_chain. Qed.
 (* ------------------------------------------------------------------------------------------ *)
 (* 2. stores                                                                                  *)
 (* ------------------------------------------------------------------------------------------ *)
-(* after any history the stores namespace is exactly what the history saved and did not delete (with the weights
-   last saved), and LoadStores hands over every entry below 2^64-1 once, in id order, with those weights *)
-Theorem C17_load_stores :
+(* Every store saved and not deleted is returned exactly once by LoadStores, with the weights last saved (default
+   1.0), for every history and every id in [0, 2^64) — the maximum id included (b5d4f59; before that fix the statement
+   was refuted by [OSaveStore (2^64-1) 7], now the Example C17_max_id_is_loaded). *)
+Theorem C17_load_returns_each_saved_once :
   forall ops, ops_ok ops ->
     let s := run_state run_op sinit ops in
-    (forall id, lookup (stores s) id = fold_left store_want ops no_want id) /\
-    (forall id, lookup (lweight s) id = fold_left lw_want ops no_want id) /\
-    (forall id, lookup (rweight s) id = fold_left rw_want ops no_want id) /\
-    sorted_from 0 (stores s) /\
-    snd (run_op s OLoadStores) = BStores RDone (map (decorate s) (filter (fun p => fst p <? max_id) (stores s))).
-Proof. exact load_stores_pf. Qed.
-
-(* Full statement: every store saved and not deleted is returned exactly once. *)
-Definition C17_load_returns_each_saved_once_full : Prop :=
-  forall ops, ops_ok ops ->
-    let s := run_state run_op sinit ops in
-    forall id p, fold_left store_want ops no_want id = Some p ->
-      exists lw rw, snd (run_op s OLoadStores) = BStores RDone (map (decorate s) (stores s)) /\
-                    In (id, p, lw, rw) (map (decorate s) (stores s)).
-
-(* refuted on the unchanged code: id 2^64-1 is never loaded (exclusive range end; S9) *)
-Theorem C17_load_returns_each_saved_once_refuted : ~ C17_load_returns_each_saved_once_full.
-Proof.
-  intros H. unfold C17_load_returns_each_saved_once_full in H. specialize (H [OSaveStore max_id 7]). cbv zeta in H.
-  assert (Hok : ops_ok [OSaveStore max_id 7]).
-  { split; [|exact I]. change (0 <= max_id < two64). unfold max_id, two64. lia. }
-  destruct (H Hok max_id 7 ltac:(vm_compute; reflexivity)) as (lw & rw & E & _).
-  vm_compute in E. discriminate E.
-Qed.
-
-(* the excluded class spelled out: no stored id equals 2^64-1 *)
-Theorem C17_load_returns_each_saved_once_partial :
-  forall ops, ops_ok ops ->
-    let s := run_state run_op sinit ops in
-    (forall p, fold_left store_want ops no_want max_id <> Some p) ->
     snd (run_op s OLoadStores) = BStores RDone (map (decorate s) (stores s)) /\
     sorted_from 0 (stores s) /\
+    (forall id, lookup (lweight s) id = fold_left lw_want ops no_want id) /\
+    (forall id, lookup (rweight s) id = fold_left rw_want ops no_want id) /\
     forall id p, fold_left store_want ops no_want id = Some p <->
                  In (id, p, weight_of (lweight s) id, weight_of (rweight s) id) (map (decorate s) (stores s)).
-Proof. exact load_returns_each_saved_once_partial_pf. Qed.
+Proof. exact load_returns_each_saved_once_pf. Qed.
 
 (* ------------------------------------------------------------------------------------------ *)
 (* 3. regions, direct backend (Storage.Base: memKV / etcd), any key sizes                      *)
 (* ------------------------------------------------------------------------------------------ *)
+(* The regions namespace is what the history left; whatever the byte budget the load never loops for ever and, when it
+   finishes, returns every region exactly once in id order; it finishes whenever pages of at most 156 items fit. *)
 Theorem C17_load_regions_direct :
   forall ops, ops_ok ops -> plain_ops ops = true ->
     let s := run_state run_op sinit ops in
     (forall id, lookup (base_r s) id = fold_left region_want ops no_rwant id) /\
     sorted_from 0 (base_r s) /\
-    (* whatever the byte budget: no endless loop, and a load that finishes is complete *)
-    (exists st l, snd (run_op s OLoadRegions) = BRegions st l /\ st <> RDiverged /\
-                  (st = RDone -> l = filter (fun p => fst p <? max_id) (base_r s))) /\
-    (* and it does finish when every page of at most 156 items fits the budget (in particular without a budget) *)
+    (exists st l, snd (run_op s OLoadRegions) = BRegions st l /\ st <> RDiverged /\ (st = RDone -> l = base_r s)) /\
     ((forall page, Z.of_nat (length page) <= 156 -> over_budget (budget s) O page = false) ->
-     snd (run_op s OLoadRegions) = BRegions RDone (filter (fun p => fst p <? max_id) (base_r s))).
+     snd (run_op s OLoadRegions) = BRegions RDone (base_r s)).
 Proof. exact load_regions_direct_pf. Qed.
 
 (* ------------------------------------------------------------------------------------------ *)
 (* 4. regions, RegionStorage backend: the write-back batch                                    *)
 (* ------------------------------------------------------------------------------------------ *)
-(* Full statement: once Flush has returned, a load returns exactly what the history saved and did not delete. *)
-Definition C17_flush_makes_durable_full : Prop :=
+(* Once Flush has returned, leveldb holds exactly what the history saved and did not delete, and a load returns it
+   (e76651c: a delete also drops the pending save; before that fix the statement was refuted by save 5, delete 5,
+   flush — now the Example C17_delete_drops_pending_save). *)
+Theorem C17_flush_makes_durable :
   forall ops, ops_ok ops -> plain_ops ops = true ->
-    let s := run_state run_op srs (ops ++ [OFlush]) in
-    forall id, lookup (ldb s) id = fold_left region_want ops no_rwant id.
-
-(* refuted on the unchanged code: DeleteRegion bypasses the batch (S10): save, delete, flush -> still stored *)
-Theorem C17_flush_makes_durable_refuted : ~ C17_flush_makes_durable_full.
-Proof.
-  intros H. unfold C17_flush_makes_durable_full in H. specialize (H [OSaveRegion 5 (RV 1 2 1 1 10); ODeleteRegion 5]).
-  assert (Hok : ops_ok [OSaveRegion 5 (RV 1 2 1 1 10); ODeleteRegion 5]) by (cbn; repeat split; vm_compute; discriminate).
-  specialize (H Hok eq_refl 5). vm_compute in H. discriminate H.
-Qed.
-
-(* the excluded class spelled out: no DeleteRegion of an id whose save is still buffered *)
-Theorem C17_flush_makes_durable_partial :
-  forall ops, ops_ok ops -> plain_ops ops = true -> safe_deletes srs ops ->
     let s := run_state run_op srs (ops ++ [OFlush]) in
     batch s = [] /\
     (forall id, lookup (ldb s) id = fold_left region_want ops no_rwant id) /\
     sorted_from 0 (ldb s) /\
-    snd (run_op s OLoadRegions) = BRegions RDone (filter (fun p => fst p <? max_id) (ldb s)).
-Proof. exact flush_makes_durable_partial_pf. Qed.
+    snd (run_op s OLoadRegions) = BRegions RDone (ldb s).
+Proof. exact flush_makes_durable_pf. Qed.
 
 (* a stop of the process between two batches loses the unflushed batch and nothing else *)
 Theorem C17_crash_keeps_flushed :
@@ -142,68 +103,61 @@ Proof. exact crash_keeps_flushed. Qed.
 (* ------------------------------------------------------------------------------------------ *)
 (* 5. pruning                                                                                 *)
 (* ------------------------------------------------------------------------------------------ *)
-(* After LoadRegions(CheckAndPutRegion) into an empty cluster (no LoadRange faults, ids below 2^64-1), storage and
-   cache hold the same set of regions with the same values, cached ids are distinct and no two cached ranges
-   intersect: stale and overlapped leftovers are gone from both. *)
+(* After LoadRegions(CheckAndPutRegion) into an empty cluster (no LoadRange faults), every stored region was offered
+   once, storage and cache hold the same set of regions with the same values, cached ids are distinct and no two
+   cached ranges intersect: stale and overlapped leftovers are gone from both — the region with id 2^64-1 included. *)
 Theorem C17_load_prunes_to_cache :
-  forall (m : amap rv), sorted_from 0 m -> (forall k v, In (k, v) m -> k < max_id) ->
-    let res := load_regions never_fails check_and_put m [] in
-    fst (fst (fst res)) = RDone /\ same_content (snd (fst res)) (snd res) /\ disjoint (snd res) /\ ids_distinct (snd res).
-Proof. exact load_prunes_to_cache_pf. Qed.
-
-(* Full statement without the bound on ids. *)
-Definition C17_load_prunes_to_cache_full : Prop :=
   forall (m : amap rv), sorted_from 0 m -> (forall k v, In (k, v) m -> k < two64) ->
     let res := load_regions never_fails check_and_put m [] in
-    same_content (snd (fst res)) (snd res).
-(* refuted on the unchanged code: region 2^64-1 stays in storage and never reaches the cache (S9) *)
-Theorem C17_load_prunes_to_cache_refuted : ~ C17_load_prunes_to_cache_full.
-Proof.
-  intros H. unfold C17_load_prunes_to_cache_full in H.
-  specialize (H [(max_id, RV 1 2 1 1 10)]).
-  assert (Hs : sorted_from 0 [(max_id, RV 1 2 1 1 10)]) by (split; [unfold max_id, two64; lia|exact I]).
-  assert (Hb : forall k v, In (k, v) [(max_id, RV 1 2 1 1 10)] -> k < two64).
-  { intros k v [E|[]]. inversion E. unfold max_id. lia. }
-  specialize (H Hs Hb). cbv zeta in H.
-  destruct (H max_id (RV 1 2 1 1 10)) as [H1 _].
-  assert (In (max_id, RV 1 2 1 1 10) (snd (load_regions never_fails check_and_put [(max_id, RV 1 2 1 1 10)] []))).
-  { apply H1. vm_compute. reflexivity. }
-  vm_compute in H0. exact H0.
-Qed.
+    fst (fst (fst res)) = RDone /\ same_content (snd (fst res)) (snd res) /\ disjoint (snd res) /\ ids_distinct (snd res) /\
+    snd (fst (fst res)) = m.
+Proof. exact load_prunes_to_cache_pf. Qed.
 
-(* With the RegionStorage backend the loads read leveldb only: a save that is still buffered when the pruning load
-   runs is invisible to it (stated, not proved: checks/C17.json "todo"). *)
-Definition C17_prune_with_pending_batch_todo : Prop :=
-  forall s, SInv s -> use_rs s = true -> batch s = [] ->
-    (forall k v, In (k, v) (ldb s) -> k < max_id) ->
-    match snd (run_op s OLoadIntoCache) with
-    | BCache RDone _ c after => same_content after c /\ disjoint c
-    | _ => False
-    end.
+(* the same for the operation, either backend; with the RegionStorage backend a pruned region does not wait in the
+   write-back batch either, so a later flush cannot bring it back *)
+Theorem C17_prune_operation :
+  forall s, SInv s -> (use_rs s = true \/ budget s = None) ->
+    (forall k v, In (k, v) (regions_of s (use_rs s)) -> k < two64) ->
+    exists c after,
+      snd (run_op s OLoadIntoCache) = BCache RDone (regions_of s (use_rs s)) c after /\
+      same_content after c /\ disjoint c /\
+      regions_of (fst (run_op s OLoadIntoCache)) (use_rs s) = after /\
+      (forall id, lookup (regions_of s (use_rs s)) id <> None -> lookup after id = None ->
+                  In id (map fst (batch (fst (run_op s OLoadIntoCache)))) -> use_rs s = false) /\
+      (batch s = [] -> batch (fst (run_op s OLoadIntoCache)) = []).
+Proof. exact prune_op_pf. Qed.
 
-(* non-vacuity *)
+(* non-vacuity, and the former refutation witnesses, which now behave *)
 Example C17_nonvacuous :
-  let ops := [OSaveStore 3 30; OSaveStore 1 10; OSaveWeight 1 2000 500; OSaveStore 2 20; ODeleteStore 2;
-              OSaveStore max_id 99; OLoadStores] in
+  let ops := [OSaveStore 3 30; OSaveStore 1 10; OSaveWeight 1 2000 500; OSaveStore 2 20; ODeleteStore 2; OLoadStores] in
   ops_ok ops /\
   last (run run_op sinit ops) BUnit = BStores RDone [(1, 10, 2000, 500); (3, 30, 1000, 1000)].
 Proof. split; [cbn; repeat split; vm_compute; discriminate|vm_compute; reflexivity]. Qed.
 
+Example C17_max_id_is_loaded :
+  last (run run_op sinit [OSaveStore 1 10; OSaveStore max_id 99; OLoadStores]) BUnit
+    = BStores RDone [(1, 10, 1000, 1000); (max_id, 99, 1000, 1000)] /\
+  snd (run_op (run_state run_op sinit [OSaveRegion max_id (RV 1 2 1 1 10)]) OLoadIntoCache)
+    = BCache RDone [(max_id, RV 1 2 1 1 10)] [(max_id, RV 1 2 1 1 10)] [(max_id, RV 1 2 1 1 10)].
+Proof. split; vm_compute; reflexivity. Qed.
+
+Example C17_delete_drops_pending_save :
+  let ops := [OSaveRegion 5 (RV 1 2 1 1 10); ODeleteRegion 5] in
+  ops_ok ops /\ plain_ops ops = true /\ ldb (run_state run_op srs (ops ++ [OFlush])) = [].
+Proof. split; [cbn; repeat split; vm_compute; discriminate|]. split; reflexivity. Qed.
+
 Example C17_batch_nonvacuous :
   let ops := [OSaveRegion 7 (RV 1 2 1 1 10); OSaveRegion 5 (RV 2 3 1 1 10); OFlush; ODeleteRegion 7; OSaveRegion 9 (RV 3 0 1 1 10)] in
-  ops_ok ops /\ plain_ops ops = true /\ safe_deletes srs ops /\
+  ops_ok ops /\ plain_ops ops = true /\
   map fst (ldb (run_state run_op srs (ops ++ [OFlush]))) = [5; 9].
-Proof. split; [cbn; repeat split; vm_compute; discriminate|]. split; [reflexivity|]. split; [cbn; repeat split; reflexivity|vm_compute; reflexivity]. Qed.
+Proof. split; [cbn; repeat split; vm_compute; discriminate|]. split; [reflexivity|vm_compute; reflexivity]. Qed.
 
 Print Assumptions C17_pad_covers_uint64.
 Print Assumptions C17_paging_exact.
 Print Assumptions C17_region_limit_chain.
-Print Assumptions C17_load_stores.
-Print Assumptions C17_load_returns_each_saved_once_refuted.
-Print Assumptions C17_load_returns_each_saved_once_partial.
+Print Assumptions C17_load_returns_each_saved_once.
 Print Assumptions C17_load_regions_direct.
-Print Assumptions C17_flush_makes_durable_refuted.
-Print Assumptions C17_flush_makes_durable_partial.
+Print Assumptions C17_flush_makes_durable.
 Print Assumptions C17_crash_keeps_flushed.
 Print Assumptions C17_load_prunes_to_cache.
-Print Assumptions C17_load_prunes_to_cache_refuted.
+Print Assumptions C17_prune_operation.
